@@ -49,6 +49,9 @@ package server
 //@   ensures result.1 == nil && digest != "" ==> blobfile(sreplaceall(digest, ":", "-"))
 //@   ensures result.1 == nil && digest != "" ==> forall j int :: 0 <= j && j < 71 ==> sreplaceall(digest, ":", "-")[j] == ite(j == 6, 45, digest[j])
 //@   ensures result.1 != nil ==> result.0 == ""
+// (audit) the only directory GetBlobsPath creates is the blobs directory itself: the joined path when
+// no digest is given, its parent otherwise - never a path that still contains the caller's string.
+//@   assert-at call os.MkdirAll #1 : arg0 == ite(digest == "", path, fpdir(path)) && path == fpjoin3(envconfig.Models(), "blobs", digest)
 
 // A model path is either refused or names manifests/<host>/<namespace>/<model>/<tag> with
 // four parts accepted by the validator (validpart_no_separators: no '/', '\', NUL, not dot-first).
@@ -67,5 +70,39 @@ package server
 // (obligations pre@types/model.(Name).Filepath); WriteManifest does not and relies on its callers.
 //@ func WriteManifest
 //@   requires fqname(name.Host, name.Namespace, name.Model, name.Tag)
+// -- C13 strengthening (audit): the file that is created IS the manifest file of the validated name:
+// <models>/manifests joined with the four parts - not a path built from the printed name, from
+// some of the parts, or from another name. (pre@Filepath alone only says that Filepath does not
+// panic; it does not say that Filepath's result is what reaches the file system.)
+//@   assert-at call os.MkdirAll #1 : arg0 == fpdir(manifestfile(name.Host, name.Namespace, name.Model, name.Tag))
+//@   assert-at call os.Create #1 : arg0 == manifestfile(name.Host, name.Namespace, name.Model, name.Tag)
+// -- for C04/C12 (requested by their audit; WriteManifest's contract block lives here): the manifest
+// is encoded only into a successfully created file, nil means created and fully encoded, and what
+// is encoded is the given config and layers.
+//@   ghost-at entry : ghost_wmc := 0
+//@   ghost-at entry : ghost_wme := 0
+//@   ghost-at after call os.Create #1 : ghost_wmc := ite(result.1 == nil, 1, 0)
+//@   ghost-at after call Encode #1 : ghost_wme := ite(result == nil, 1, 0)
+//@   assert-at call Encode #1 : ghost_wmc == 1
+//@   assert-at call Encode #1 : m.Config == config && m.Layers == layers
+//@   assert-at return : result == nil ==> ghost_wmc == 1 && ghost_wme == 1
+
+// The manifests directory is <models>/manifests.
+//@ spec func fpdir(p string) string
+//@ extern func path/filepath.Dir
+//@   pure
+//@   ensures result == fpdir(path)
+//@ spec func manifestfile(h string, n string, m string, t string) string = fpjoin2(fpjoin2(envconfig.Models(), "manifests"), fpjoin4(h, n, m, t))
+//@ func GetManifestPath
+//@   ensures result.1 == nil ==> result.0 == fpjoin2(envconfig.Models(), "manifests")
+//@   ensures result.1 != nil ==> result.0 == ""
+
+// ParseNamedManifest: refuses names that are not fully qualified; the file it opens, and the path
+// it records in the Manifest (Manifest.Remove later deletes exactly m.filepath), is the manifest
+// file of the validated name.
+//@ func ParseNamedManifest
+//@   assert-at call os.Open #1 : arg0 == manifestfile(n.Host, n.Namespace, n.Model, n.Tag)
+//@   ensures result.1 == nil ==> fqname(n.Host, n.Namespace, n.Model, n.Tag)
+//@   ensures result.1 == nil ==> result.0 != nil && result.0.filepath == manifestfile(n.Host, n.Namespace, n.Model, n.Tag)
 
 // ==== end C13 ====
